@@ -490,11 +490,11 @@ def c16_run(mon, s):
             mon.bad('run-price-length', mechanism='C16/price-series-length', product=prod,
                     n=None if series is None else len(series), want=cy + L)
             continue
-        ptc_val = 0.0
+        ptc_val = raw_ptc = 0.0
         if ptc_ is not None:
             pp = getattr(ec, ptc_)
             if pp.Provided:
-                ptc_val = float(pp.value)
+                ptc_val = raw_ptc = float(pp.value)
                 if unit_factor is None:
                     # PTC heat/cooling are declared in USD/MMBTU; the price is USD/kWh: 1 MMBTU = 1055.056e6 J (pint's BTU)
                     ptc_val = ptc_val * 3.6e6 / 1055.056e6 if (pp.CurrentUnits or '').upper().endswith('MMBTU') else ptc_val
@@ -502,8 +502,13 @@ def c16_run(mon, s):
         want = [0.0] * cy + R.price_schedule(L, float(getattr(ec, sp_).value), float(getattr(ec, ep_).value),
                                              int(getattr(ec, t0_).value), float(getattr(ec, rt_).value), ptc)
         mech = 'C16/run-price-schedule:' + prod
-        if ptc_ in ('PTCHeat', 'PTCCooling') and ptc_val != 0.0:
-            mech = 'C16/heat-cooling-PTC-USD-per-MMBTU-added-to-USD-per-kWh-price'
+        if ptc_ in ('PTCHeat', 'PTCCooling') and ptc_val != 0.0 and raw_ptc != ptc_val:
+            # the (fixed) F9 defect has a recognisable signature: the unconverted USD/MMBTU number added to the USD/kWh price
+            f9 = [0.0] * cy + R.price_schedule(L, float(getattr(ec, sp_).value), float(getattr(ec, ep_).value),
+                                               int(getattr(ec, t0_).value), float(getattr(ec, rt_).value),
+                                               R.ptc_schedule(L, dur, raw_ptc, adj, infl))
+            if len(f9) == len(series) and all(abs(a - b) <= 1e-9 * max(abs(a), abs(b), 1e-12) for a, b in zip(series, f9)):
+                mech = 'C16/heat-cooling-PTC-USD-per-MMBTU-added-to-USD-per-kWh-price'
         mon.seq('run-price', series, want, rel=1e-9, abs_=1e-12, mechanism=mech, product=prod, cy=cy, life=L,
                 ptc=ptc_val, dur=dur)
         if any(series[:cy]):
